@@ -207,6 +207,61 @@ IMPORT_MODULES = {
 GLOBAL_EXEC_WRAP = 'import sys\nclass _G(object):\n    def __init__(self, inner):\n        self.inner = inner\n    def write(self, t):\n        return self.inner.write(t)\n    def flush(self):\n        return self.inner.flush()\nsys.stdout = _G(sys.stdout)'
 
 
+def ambient_streams(ctx):
+    """the stream found in sys.stdout when the run starts need not be a well-behaved file: a write-only sink, a stream whose
+    flush() fails (a pipe whose reader is gone), a stream without isatty/encoding: after every outcome, at every verbosity,
+    sys.stdout is that very object again"""
+    from xdoctest import doctest_example
+    import io
+
+    class Sink(object):
+        def __init__(self):
+            self.buf = []
+
+        def write(self, t):
+            self.buf.append(t)
+            return len(t)
+
+    class BadFlush(io.StringIO):
+        def flush(self):
+            raise BrokenPipeError('the reader is gone')
+
+    class NoFlushAttr(object):
+        def write(self, t):
+            return len(t)
+
+        def __getattr__(self, name):
+            raise AttributeError(name)
+    docs = [">>> print('x')\nx", ">>> print('x')\ny", ">>> raise ValueError('v')", ">>> raise ValueError('v')\nTraceback (most recent call last):\nValueError: v",
+            ">>> import xdoctest\n>>> raise xdoctest.ExitTestException()", ">>> raise SystemExit(3)", ">>> print('never')  # xdoctest: +SKIP"]
+    for mk in (Sink, BadFlush, NoFlushAttr):
+        for verbose in (0, 1, 2, 3):
+            for oe in ('return', 'raise'):
+                for doc in docs:
+                    ctx.evaluations += 1
+                    amb = mk()
+                    ex = doctest_example.DocTest(docsrc=doc, lineno=1)
+                    real, real_err = sys.stdout, sys.stderr
+                    sys.stdout = amb
+                    try:
+                        try:
+                            with warnings.catch_warnings():
+                                warnings.simplefilter('ignore')
+                                ex.run(on_error=oe, verbose=verbose)
+                            how = 'returned'
+                        except BaseException as e:      # noqa
+                            how = 'raised %s' % type(e).__name__
+                        same = sys.stdout is amb
+                    finally:
+                        sys.stdout, sys.stderr = real, real_err
+                    if not same:
+                        ctx.violation('not-restored', {'what': 'with a %s object as sys.stdout, after DocTest.run(on_error=%r, verbose=%d) that %s, sys.stdout is not that object any more' % (
+                            mk.__name__, oe, verbose, how), 'doctest': doc, 'ambient': mk.__name__, 'verbose': verbose, 'on_error': oe,
+                            'theorem_or_correspondence': 'C12_stdout_restored on DocTest.run (ambient stream)'}, True)
+                        return
+    ctx.count('ambient_stream_runs', 3 * 4 * 2 * len(docs))
+
+
 def import_cases(ctx):
     from xdoctest.utils import util_import
     from xdoctest import doctest_example
@@ -438,6 +493,7 @@ def run(ctx):
                           'theorem_or_correspondence': 'C12_run_restores / capture_exact evaluated on the extracted model'}, False)
             break
     import_cases(ctx)
+    ambient_streams(ctx)
     ctx.add_rule('PythonPathContext: seeded sys.path lists x index in {-1,0,1,2,-2,len,-(len+1)} x 11 body manipulations vs model; '
                  'DocTest.run: 9 body flavours (prints, replaces sys.stdout with/without restoring, closes the stream found in sys.stdout directly or through `with`, alters warning filters / showwarning, awaits, touches stderr) x '
                  '10 endings (pass, mismatch, exception, expected exception, ExitTestException, pytest.skip, skipped tail, SystemExit, KeyboardInterrupt, compile error) '
